@@ -242,7 +242,7 @@ func (f *Frame) inlineCall(callee *ssa.Function, args []string, res *ssa.Call, s
 			}
 		}
 		if strings.ContainsAny(t, " (") {
-			t = vc.define(k+"@ret", vc.eng.keySort[k], t)
+			t = vc.defineMerged(k+"@ret", vc.eng.keySort[k], t)
 		}
 		ns.m[k] = t
 	}
@@ -458,6 +458,11 @@ func (f *Frame) applyModifies(spec *FuncSpec, env *TEnv, pre, post *State) {
 		cond := And(append([]string{S("<=", "0", "r!m"), S("<=", "r!m", allocPre)}, excl...)...)
 		vc.assume(fmt.Sprintf("(forall ((r!m Int)) (! (=> %s (= (select %s r!m) (select %s r!m))) :pattern ((select %s r!m))))", cond, nv, old, nv))
 	}
+	for _, k := range keys {
+		if wf := vc.heapWF(k, f.get(post, k), na); wf != "" {
+			vc.assume(wf)
+		}
+	}
 	// Keys not mentioned keep their version. Objects the callee allocates may
 	// have any contents in those keys: in the caller's view the cells of a
 	// reference above the pre-call watermark were never constrained, so facts
@@ -486,7 +491,7 @@ func (f *Frame) builtin(b *ssa.Builtin, c *ssa.CallCommon, res *ssa.Call, pos to
 			t = S("slen", a)
 		case *types.Map:
 			_, kd, kl := vc.mapKeys(at)
-			t = Ite(S("=", a, "0"), "0", S("select", f.get(f.cur, kl), a))
+			t = S("select", f.get(f.cur, kl), a)
 			vc.assume(mapLenFact(vc, at, a, f.get(f.cur, kl), f.get(f.cur, kd)))
 		case *types.Array:
 			t = fmt.Sprint(at.Len())
